@@ -1,4 +1,4 @@
-// probe: ad-hoc reproduction of PopIterate observations on the real code.  Development helper.
+// probe: ad-hoc reproduction of observations on the real code.  Development helper.
 package main
 
 import (
@@ -13,51 +13,33 @@ func tic(a, b atree.TypeInfo) bool { return a == b }
 func main() {
 	atree.VerifSetThreshold(1024)
 	addr := hx.MkAddr(1)
-	// --- A: PopIterate on a parent that tracks a child, then reuse the parent
-	{
+	for _, big := range []bool{false, true} {
 		ps := hx.NewStorage(hx.NewLedger())
 		parent, _ := atree.NewArray(ps, addr, hx.TI(1))
 		child, _ := atree.NewArray(ps, addr, hx.TI(2))
-		_ = child.Append(hx.TV{Size: 5, Pay: 1})
-		fmt.Println("A append child:", parent.Append(child))
-		_ = parent.Append(hx.TV{Size: 5, Pay: 2})
-		err := parent.PopIterate(func(s atree.Storable) {})
-		fmt.Println("A pop:", err, "count", parent.Count())
-		err = parent.Append(hx.TV{Size: 5, Pay: 3})
-		fmt.Println("A append after pop:", err)
-		err = parent.Insert(0, hx.TV{Size: 5, Pay: 4})
-		fmt.Println("A insert(0) after pop:", err, "count", parent.Count())
-	}
-	// --- B: PopIterate through the handle of an inlined child
-	{
-		ps := hx.NewStorage(hx.NewLedger())
-		parent, _ := atree.NewArray(ps, addr, hx.TI(1))
-		child, _ := atree.NewArray(ps, addr, hx.TI(2))
-		for i := 0; i < 3; i++ {
+		n := 3
+		if big {
+			n = 200
+		}
+		for i := 0; i < n; i++ {
 			_ = child.Append(hx.TV{Size: 5, Pay: uint64(i)})
 		}
+		_ = parent.Append(hx.TV{Size: 5, Pay: 77})
 		_ = parent.Append(child)
-		fmt.Println("B child inlined:", child.Inlined(), "verify before:", atree.VerifyArray(parent, addr, hx.TI(1), tic, hx.HashInput, true))
-		_ = ps.FastCommit(1)
-		err := child.PopIterate(func(s atree.Storable) {})
-		fmt.Println("B child pop:", err, "child count", child.Count(), "deltas", len(atree.VerifDeltas(ps)))
-		fmt.Println("B verify parent after child pop:", atree.VerifyArray(parent, addr, hx.TI(1), tic, hx.HashInput, true))
-		v, _ := parent.Get(0)
-		fmt.Println("B read through parent: count", v.(*atree.Array).Count())
-		_ = ps.FastCommit(1)
-	}
-	// --- C: same for a map child in a map parent
-	{
-		ps := hx.NewStorage(hx.NewLedger())
-		parent, _ := atree.NewMap(ps, addr, atree.NewDefaultDigesterBuilder(), hx.TI(1))
-		child, _ := atree.NewMap(ps, addr, atree.NewDefaultDigesterBuilder(), hx.TI(2))
-		for i := 0; i < 3; i++ {
-			_, _ = child.Set(hx.CompareKey, hx.HashInput, hx.TV{Size: 5, Pay: uint64(i)}, hx.TV{Size: 5, Pay: uint64(i)})
+		fmt.Println("big", big, "child inlined:", child.Inlined(), "verify:", atree.VerifyArray(parent, addr, hx.TI(1), tic, hx.HashInput, true))
+		old, err := parent.Set(1, child)
+		fmt.Printf("re-set same child: old=%T %v err=%v\n", old, old, err)
+		fmt.Println("  child inlined:", child.Inlined(), "verify:", atree.VerifyArray(parent, addr, hx.TI(1), tic, hx.HashInput, true))
+		err = child.Append(hx.TV{Size: 5, Pay: 1000})
+		fmt.Println("  append to child after re-set:", err)
+		fmt.Println("  verify:", atree.VerifyArray(parent, addr, hx.TI(1), tic, hx.HashInput, true))
+		v, err := parent.Get(1)
+		if err == nil {
+			fmt.Println("  read through parent count:", v.(*atree.Array).Count(), "child count", child.Count())
+		} else {
+			fmt.Println("  get err", err)
 		}
-		_, _ = parent.Set(hx.CompareKey, hx.HashInput, hx.TV{Size: 5, Pay: 9}, child)
-		fmt.Println("C child inlined:", child.Inlined(), "verify before:", atree.VerifyMap(parent, addr, hx.TI(1), tic, hx.HashInput, true))
-		err := child.PopIterate(func(k, v atree.Storable) {})
-		fmt.Println("C child pop:", err, "child count", child.Count())
-		fmt.Println("C verify parent after child pop:", atree.VerifyMap(parent, addr, hx.TI(1), tic, hx.HashInput, true))
+		_, herr := atree.CheckStorageHealth(ps, 1)
+		fmt.Println("  health:", herr)
 	}
 }
